@@ -27,12 +27,13 @@ func (Precompile).IsTransaction
 
 // RequiredGas (called by vm.runPrecompiledContract with the raw call data, before Run): the common flat + per-byte cost, write
 // costs exactly for the transaction methods; 0 for an unknown selector.
-// FINDING AA1: `input[:4]` panics on call data shorter than four bytes - nothing at the call site guarantees them
+// (finding AA1, fixed: call data shorter than a selector costs 0 instead of panicking)
 func (Precompile).RequiredGas
     requires golen: 0 <= len(input) && len(input) <= 9223372036854775807
-    ensures unknown: ret(MethodById, 1, 1) != nil ==> result == 0
-    ensures tx: ret(MethodById, 1, 1) == nil && StkIsTx(ret(MethodById, 1, 0).Name) ==> result == p.KvGasConfig.WriteCostFlat + p.KvGasConfig.WriteCostPerByte * (len(input) - 4)
-    ensures query: ret(MethodById, 1, 1) == nil && !StkIsTx(ret(MethodById, 1, 0).Name) ==> result == p.KvGasConfig.ReadCostFlat + p.KvGasConfig.ReadCostPerByte * (len(input) - 4)
+    ensures short: len(input) < 4 ==> result == 0
+    ensures unknown: len(input) >= 4 && ret(MethodById, 1, 1) != nil ==> result == 0
+    ensures tx: len(input) >= 4 && ret(MethodById, 1, 1) == nil && StkIsTx(ret(MethodById, 1, 0).Name) ==> result == p.KvGasConfig.WriteCostFlat + p.KvGasConfig.WriteCostPerByte * (len(input) - 4)
+    ensures query: len(input) >= 4 && ret(MethodById, 1, 1) == nil && !StkIsTx(ret(MethodById, 1, 0).Name) ==> result == p.KvGasConfig.ReadCostFlat + p.KvGasConfig.ReadCostPerByte * (len(input) - 4)
 
 // every method consumes SDK gas on the meter of the context it is given (a larger frame: nothing to re-verify)
 extend func (Precompile).Approve
@@ -71,12 +72,11 @@ extend func (Precompile).Allowance
 // ---- Run
 // Preconditions: facts of the call chain vm.EVM.Call / CallCode / DelegateCall / StaticCall -> runPrecompiledContract -> Run
 // (evm and contract non-nil; a *statedb.StateDB given to the EVM is non-nil; block heights are >= 0), of NewPrecompile (keeper
-// set) and of the embedded abi.json (event arities; neither fallback nor receive). `value`: see FINDING AA2 (RunSetup).
+// set) and of the embedded abi.json (event arities; neither fallback nor receive). a nil `value` (DELEGATECALL) is handled since the AA2 fix.
 func (Precompile).Run
     requires wf: evm != nil && contract != nil && p.stakingKeeper.Keeper != nil
     requires sdb: isdyn(evm.StateDB, *SDB) ==> dyn(evm.StateDB, *SDB) != nil && ctx_height(dyn(evm.StateDB, *SDB).ctx) >= 0
     requires golen: len(contract.Input) >= 0
-    requires value: len(contract.Input) == 0 ==> contract.value != nil
     requires abi_events: len(p.ABI.Events["Approval"].Inputs) == 4 && len(p.ABI.Events["Revocation"].Inputs) == 3 && len(p.ABI.Events["AllowanceChange"].Inputs) == 4
     requires abi_plain: p.ABI.Fallback.Type != 1 && p.ABI.Receive.Type != 2
     // abi.json declares exactly the sixteen methods the switch knows (OBSERVATION AA3: the switch has no default case - a method
